@@ -256,17 +256,36 @@ class Prog:
     def small_stmts(self, n):
         return [self.simple() for _ in range(n)]
 
+    def branch_tail(self, budget, join):
+        """a control-transfer statement that may end an IF branch"""
+        r = self.rng.random()
+        if r < 0.4:
+            return self.pick(["GOSUB ", "GO SUB "]) + self.new_sub(budget)
+        if r < 0.6:
+            return "ON %s GOTO %s" % (self.pick(["0", "1", "2", "3", "I%", "K%+1"]), ",".join([join] * self.rng.randint(1, 2)))
+        if r < 0.75:
+            return "ON %s GOSUB %s" % (self.pick(["0", "1", "2", "5"]), self.new_sub(budget))
+        if r < 0.9:
+            return "GOTO " + join
+        return self.simple()
+
     def if_single(self):
-        th = ":".join(self.small_stmts(self.rng.randint(1, 2)))
-        s = "IF %s THEN %s" % (self.cond(), th)
+        join = self.label()
+        def branch():
+            st = self.small_stmts(self.rng.randint(0, 2))
+            if self.rng.random() < 0.45 or not st:
+                st.append(self.branch_tail(3, join))
+            return ":".join(st)
+        s = "IF %s THEN %s" % (self.cond(), branch())
         r = self.rng.random()
         if r < 0.5:
-            s += " ELSE " + ":".join(self.small_stmts(self.rng.randint(1, 2)))
+            s += " ELSE " + branch()
         elif r < 0.65:
-            inner = "IF %s THEN %s ELSE %s" % (self.cond(), self.simple(), self.simple())
-            s = "IF %s THEN %s ELSE %s" % (self.cond(), inner, self.simple())
+            inner = "IF %s THEN %s ELSE %s" % (self.cond(), branch(), branch())
+            s = "IF %s THEN %s ELSE %s" % (self.cond(), inner, branch())
         pre = self.small_stmts(self.rng.randint(0, 1))
         self.emit(pre + [s])
+        self.emit(self.small_stmts(self.rng.randint(0, 1)) or ["REM if-join"], label=join)
 
     def if_goto(self, budget):
         la, lb, lj = self.label(), self.label(), self.label()
